@@ -195,7 +195,7 @@ def run_misc(res, dim, system, tier):
     other_sys = L.CART[dim] if system != L.CART[dim] else L.SYSTEMS[dim][-1]
     rows_o = [tuple(float(x) for x in S.stored(v, other_sys)) for v in vs if S.stored(v, other_sys) is not None and S.stored(v, system) is not None]
     for flavor in ("generic", "momentum"):
-        for backend, cfg, variant in (("OBJ", None, "plain"), ("NP", "1d", "plain"), ("NP", "1d", "extra"), ("NP", "1d", "view"), ("NP", "2d", "plain"),
+        for backend, cfg, variant in (("OBJ", None, "plain"), ("NP", "1d", "plain"), ("NP", "1d", "extra"), ("NP", "1d", "view"), ("NP", "2d", "plain"), ("NP", "swapped", "plain"), ("NP", "strided", "plain"), ("NP", "F2d", "plain"),
                                       ("AKA", "jagged", "plain"), ("AKA", "jagged", "extra"), ("AKA", "optrec", "plain"), ("AKA", "nested3", "plain"), ("AKR", None, "extra")):
             try:
                 v = make(backend, system, flavor, rows, cfg, variant)
